@@ -22,7 +22,8 @@
 #define MT_TRACER_OK(t)                                                                                                \
     (((t)->level == AWS_MEMTRACE_NONE || (t)->level == AWS_MEMTRACE_BYTES || (t)->level == AWS_MEMTRACE_STACKS) &&     \
      ((t)->level == AWS_MEMTRACE_STACKS ==> ((t)->frames_per_stack >= MT_FPS_MIN && (t)->frames_per_stack <= MT_FPS_MAX && g_mt_bt_avail)) && \
-     g_mt_allocs == &(t)->allocs && g_mt_stacks == &(t)->stacks && g_mt_mutex == &(t)->mutex && !g_mt_locked)
+     (MT_TRACED(t) ==> (g_mt_allocs == &(t)->allocs && g_mt_mutex == &(t)->mutex)) &&                                 \
+     ((t)->level == AWS_MEMTRACE_STACKS ==> g_mt_stacks == &(t)->stacks) && !g_mt_locked)
 
 /* coupling of the view with memory: the info object of the watched entry is a live heap block owned by the table and
  * holds the recorded size */
@@ -103,6 +104,65 @@ __CPROVER_ensures(__CPROVER_is_fresh(*p_elem, sizeof(struct aws_hash_element)) &
 __CPROVER_ensures(*was_created ? (*p_elem)->value == NULL : __CPROVER_is_fresh((*p_elem)->value, sizeof(struct stack_trace)))
 __CPROVER_ensures((*was_created == 0 || *was_created == 1) && g_mt_stack_entries == __CPROVER_old(g_mt_stack_entries) + (size_t)*was_created)
 __CPROVER_ensures(__CPROVER_pointer_equals(g_mt_stack_elem, *p_elem) && g_mt_stack_created == *was_created)
+;
+
+/* ------------------------------------------------------------------ set-up and tear-down of the two tables
+ * init registers the table with the ghost view: allocs is the table whose values are destroyed by s_destroy_alloc,
+ * stacks the one with s_destroy_stacktrace.  Obligations at the call site: the bookkeeping allocator, keys hashed and
+ * compared BY ADDRESS (this is what makes the view "address -> info"), no key destructor. */
+int aws_hash_table_init(
+    struct aws_hash_table *map,
+    struct aws_allocator *alloc,
+    size_t size,
+    aws_hash_fn *hash_fn,
+    aws_hash_callback_eq_fn *equals_fn,
+    aws_hash_callback_destroy_fn *destroy_key_fn,
+    aws_hash_callback_destroy_fn *destroy_value_fn)
+__CPROVER_requires(__CPROVER_w_ok(map, sizeof(*map)))
+__CPROVER_requires(alloc == &g_mt_default_allocator)
+__CPROVER_requires(hash_fn == aws_hash_ptr && equals_fn == aws_ptr_eq && destroy_key_fn == NULL)
+__CPROVER_requires(destroy_value_fn == s_destroy_alloc || destroy_value_fn == s_destroy_stacktrace)
+__CPROVER_assigns(*map;
+                  destroy_value_fn == s_destroy_alloc : g_mt_allocs, g_mt_present, g_mt_count, g_mt_sum;
+                  destroy_value_fn == s_destroy_stacktrace : g_mt_stacks, g_mt_stack_entries)
+__CPROVER_ensures(__CPROVER_return_value == AWS_OP_SUCCESS)
+__CPROVER_ensures(destroy_value_fn == s_destroy_alloc ==> (g_mt_allocs == map && !g_mt_present && g_mt_count == 0 && g_mt_sum == 0))
+__CPROVER_ensures(destroy_value_fn == s_destroy_stacktrace ==> (g_mt_stacks == map && g_mt_stack_entries == 0))
+;
+
+/* clean_up: every entry is removed and its value handed to the value destructor once.  (Called by destroy on
+ * tracer->stacks also when that table was never initialised: a zeroed table is accepted by the real function.) */
+void aws_hash_table_clean_up(struct aws_hash_table *map)
+__CPROVER_requires(g_mt_locked)
+__CPROVER_requires(map == g_mt_allocs || map == g_mt_stacks)
+__CPROVER_assigns(*map; map == g_mt_allocs : g_mt_present, g_mt_count, g_mt_sum; map == g_mt_stacks : g_mt_stack_entries)
+__CPROVER_frees(map == g_mt_allocs && g_mt_present : g_mt_val)
+__CPROVER_ensures(map == g_mt_allocs ==> (!g_mt_present && g_mt_count == 0 && g_mt_sum == 0))
+__CPROVER_ensures(map == g_mt_stacks ==> g_mt_stack_entries == 0)
+;
+
+/* effective level: STACKS is clamped to BYTES when the platform has no backtrace */
+#define MT_EFF_STACKS(level) ((level) == AWS_MEMTRACE_STACKS && g_mt_bt_avail)
+#define MT_EFF_TRACED(level) ((level) == AWS_MEMTRACE_BYTES || (level) == AWS_MEMTRACE_STACKS)
+static void s_alloc_tracer_init(
+    struct alloc_tracer *tracer,
+    struct aws_allocator *traced_allocator,
+    enum aws_mem_trace_level level,
+    size_t frames_per_stack)
+__CPROVER_requires(__CPROVER_is_fresh(tracer, sizeof(*tracer)))
+__CPROVER_requires(level == AWS_MEMTRACE_NONE || level == AWS_MEMTRACE_BYTES || level == AWS_MEMTRACE_STACKS)
+__CPROVER_assigns(tracer->traced_allocator, tracer->level;
+                  MT_EFF_TRACED(level) : tracer->allocated, tracer->mutex, tracer->allocs, g_mt_mutex, g_mt_allocs, g_mt_present,
+                                         g_mt_count, g_mt_sum;
+                  MT_EFF_STACKS(level) : tracer->frames_per_stack, tracer->stacks, g_mt_stacks, g_mt_stack_entries)
+__CPROVER_ensures(tracer->traced_allocator == traced_allocator)
+__CPROVER_ensures(tracer->level == ((level == AWS_MEMTRACE_STACKS && !g_mt_bt_avail) ? AWS_MEMTRACE_BYTES : level))
+__CPROVER_ensures(MT_EFF_TRACED(level) ==>
+    (MT_ALLOCATED(tracer) == 0 && g_mt_sum == 0 && g_mt_count == 0 && !g_mt_present &&
+     g_mt_allocs == &tracer->allocs && g_mt_mutex == &tracer->mutex))
+__CPROVER_ensures(MT_EFF_STACKS(level) ==>
+    (g_mt_stacks == &tracer->stacks && g_mt_stack_entries == 0 &&
+     tracer->frames_per_stack == (frames_per_stack == 0 ? 8 : (frames_per_stack > 128 ? 128 : frames_per_stack))))
 ;
 
 /* ------------------------------------------------------------------ the tracer's bookkeeping steps */
@@ -300,6 +360,20 @@ __CPROVER_assigns(MT_TRACED(MT_TR(trace_allocator)) : g_mt_locked, g_mt_lock_cal
 __CPROVER_ensures(RET == (MT_TRACED(MT_TR(trace_allocator)) ? g_mt_count : 0))
 __CPROVER_ensures(!g_mt_locked)
 __CPROVER_ensures(MT_TRACED(MT_TR(trace_allocator)) ==> g_mt_lock_calls == __CPROVER_old(g_mt_lock_calls) + 1)
+;
+
+/* ------------------------------------------------------------------ destroy: both tables emptied under the mutex, the
+ * tracer block released to the bookkeeping allocator, the wrapped allocator handed back */
+struct aws_allocator *aws_mem_tracer_destroy(struct aws_allocator *trace_allocator)
+__CPROVER_requires(MT_ALLOCATOR_OK(trace_allocator))
+__CPROVER_requires(MT_VIEW_OK)
+__CPROVER_requires(MT_TR(trace_allocator)->level == AWS_MEMTRACE_BYTES ==> g_mt_stacks == &MT_TR(trace_allocator)->stacks)
+__CPROVER_assigns(MT_TRACED(MT_TR(trace_allocator)) : MT_TR(trace_allocator)->allocs, MT_TR(trace_allocator)->stacks,
+                  MT_TR(trace_allocator)->mutex, g_mt_present, g_mt_count, g_mt_sum, g_mt_stack_entries, g_mt_locked, g_mt_lock_calls)
+__CPROVER_frees(trace_allocator->impl; MT_TRACED(MT_TR(trace_allocator)) && g_mt_present : g_mt_val)
+__CPROVER_ensures(RET == g_mt_inner)
+__CPROVER_ensures(!g_mt_locked)
+__CPROVER_ensures(__CPROVER_old(MT_TR(trace_allocator)->level) != AWS_MEMTRACE_NONE ==> (g_mt_count == 0 && g_mt_sum == 0 && !g_mt_present))
 ;
 
 #endif
